@@ -389,6 +389,22 @@ func challengeCase(c chalCase, tag string) {
 	cs := c.caseMap(raw)
 	var got *ntlm.ChallengeMessage
 	var err error
+	if len(raw)%3 == 0 {
+		// damaged versions first (refused, or parsed as something else): the parse of the
+		// well-formed message that follows must not depend on them
+		for _, cut := range []int{len(raw) - 1, len(raw) / 2, 32, 12} {
+			if cut > 0 && cut < len(raw) {
+				mon.Guard(func() { ntlm.ParseChallengeMessage(append([]byte{}, raw[:cut]...)) })
+			}
+		}
+		bad := append([]byte{}, raw...)
+		bad[8] = 3 // another message type
+		mon.Guard(func() { ntlm.ParseChallengeMessage(bad) })
+		if c.spec.TargetInfo != nil && len(c.spec.TargetInfo) > 4 {
+			mon.Guard(func() { ntlm.ParseTargetInfo(append([]byte{}, c.spec.TargetInfo[:len(c.spec.TargetInfo)-3]...)) })
+		}
+		r.Count("damaged_parses_before_a_valid_one", 1)
+	}
 	in := append([]byte{}, raw...) // the caller's buffer
 	p, v, st := mon.Guard(func() { got, err = ntlm.ParseChallengeMessage(in) })
 	r.Eval(1)
